@@ -7,7 +7,7 @@ import re
 from harness import core
 
 GEN = ['gen_tables', 'gen_regex', 'gen_config', 'gen_core']
-THEOREMS = ['C06_emphasis_sound', 'C06_process_emphasis_sound', 'C06_emphasis_sound_hypotheses', 'C06_flanking_is_the_source', 'C06_simple_emphasis', 'C06_simple_emphasis_hypotheses', 'C06_emphasis_in_sentence', 'C06_emphasis_in_sentence_hypotheses', 'C06_tables', 'C06_flanking', 'C06_closed_by', 'C06_bounded_alpha5_7', 'C06_bounded_star_under_12']
+THEOREMS = ['C06_emphasis_phrases', 'C06_sequential_pairs', 'C06_emphasis_phrases_hypotheses', 'C06_emphasis_sound', 'C06_process_emphasis_sound', 'C06_emphasis_sound_hypotheses', 'C06_flanking_is_the_source', 'C06_simple_emphasis', 'C06_simple_emphasis_hypotheses', 'C06_emphasis_in_sentence', 'C06_emphasis_in_sentence_hypotheses', 'C06_tables', 'C06_flanking', 'C06_closed_by', 'C06_bounded_alpha5_7', 'C06_bounded_star_under_12']
 TRUSTED = ['Spec/Delims.v: the CommonMark 0.30 delimiter algorithm written from the specification appendix (the yardstick)',
            'the model of core_tokens.py / span_tokenizer.py (tied by X-doc and X-inline)',
            'vm_compute for the kernel sweeps (33 shard files)']
@@ -153,6 +153,33 @@ def run(ctx, only=None):
                                 'what': 'one pair of delimiter runs inside plain text is not plain text, one emphasis, plain text',
                                 'observed': g, 'expected': e, 'kf': None})
     compare(ctx, sent[:2000], 'emphasis_in_sentence_vs_spec')
+    # the class of C06_emphasis_phrases: ANY NUMBER of such phrases, each followed by a non-empty stretch of plain text that begins and ends with white space or punctuation
+    seps = [' ', ' and ', ', ', '. Then ', ' (', ') ', ': "', '" ', ' — ', '.', ' x y, ', '; ', '\t', ' é — ']
+    many, want = [], []
+    for _ in range(4000 if ctx.quick() else 60000):
+        t0 = rng.choice(['', 'Say ', 'x: ', '(', 'one two. ', '中。', '"'])
+        text, exp = t0, t0
+        for _i in range(rng.randint(2, 6)):
+            w = ' '.join(rng.choice(pieces) for _ in range(rng.randint(1, 4)))
+            if not (w[0].isalnum() and w[-1].isalnum()):
+                w = 'w'
+            ch, dbl = rng.choice('*_'), rng.random() < 0.5
+            run_ = ch * (2 if dbl else 1)
+            t = rng.choice(seps)
+            text += run_ + w + run_ + t
+            exp += (('<strong>%s</strong>' if dbl else '<em>%s</em>') % w) + t
+        many.append(text)
+        want.append(exp)
+    with mp.Pool(core.NPROC) as pool:
+        got = [x for part in pool.map(impl_emph, chunks(many, 2000)) for x in part]
+    for t_, g, e in zip(many, got, want):
+        ctx.count('evaluations')
+        ctx.count('strings_emphasis_phrases')
+        if g != e:
+            ctx.failing.append({'interface': 'oracle(emphasis phrases)', 'input': {'text': t_},
+                                'what': 'a sentence of several emphasised phrases separated by plain text is not plain text and one emphasis per phrase, in order',
+                                'observed': g, 'expected': e, 'kf': None})
+    compare(ctx, many[:2000], 'emphasis_phrases_vs_spec')
     ctx.count('distinct_nontrivial', sum(1 for s in texts if len(re.findall(r'\*+|_+', s)) >= 2))
     ctx.sample({'text': '*a **b c** d*', 'implementation': impl_emph(['*a **b c** d*'])[0]})
 
